@@ -9,10 +9,15 @@ import (
 
 // ConcatCase (C14): out(A;B;C) == out(A) ++ out(B) ++ out(C) for label-free,
 // position-independent statement sequences in one mode.
+// refusedStmts: statements that parse and are then refused with a diagnostic (checked on the unchanged tree)
+var refusedStmts = []string{"\tSUB BX,[CX]", "\tADD AX,[CX]", "\tPUSH [CX]", "\tINT 300", "\tOUT 300,AL", "\tINC AX", "\tADC AX,1", "\tMOV AL,BX", "\tMOV AX,nolabel", "\tAND AX,[DX+1]", "\tLEA AX,[BX]", "\tXCHG AX,BX"}
+
 type ConcatCase struct {
 	Mode  int       `json:"mode"`
 	Parts [][]PStmt `json:"parts"`
 	Cell_ string    `json:"cell"`
+	// one part is a statement that is refused with a diagnostic: the comparison of bytes is made all the same
+	Refused bool `json:"refused,omitempty"`
 }
 
 func (c *ConcatCase) Kind() string { return "concat" }
@@ -51,9 +56,20 @@ func (c *ConcatCase) Judge(rs []Res, env *Env) Outcome {
 		}
 	}
 	wholeOK, whyWhole := env.accepted(&rs[len(rs)-1])
-	if !partsOK && !wholeOK {
+	if !partsOK && !wholeOK && !c.Refused {
 		o.Status = Rejected
 		return o
+	}
+	if c.Refused {
+		// one part is a statement gosk refuses (it parses; pass 1 or code generation reports it): alone and among the others it must be
+		// refused alike, and the bytes of the statements around it must be the ones they have without it
+		for i := range rs {
+			if rs[i].ParseErr != "" || rs[i].Crashed() {
+				o.Status, o.Note = Rejected, "parse error / crash"
+				return o
+			}
+		}
+		partsOK, wholeOK = true, true
 	}
 	if partsOK != wholeOK {
 		o.Status = Violated
@@ -202,6 +218,18 @@ func init() {
 			c.Cell_ = fmt.Sprintf("%s m%d first=%s", c.Cell_, mode, stmtKindOf(c.Parts[1][0]))
 			cases = append(cases, c)
 		}
+		// a statement that gosk refuses, inserted between valid ones (in particular between two identical ones): the valid ones keep their bytes
+		for i := 0; i < 150; i++ {
+			mode := 16 + 16*(i%2)
+			a, b := poolSeq(r, mode, 1, 3), poolSeq(r, mode, 1, 3)
+			if i%3 == 0 {
+				b = append([]PStmt{a[len(a)-1]}, b...) // the statement after the refused one repeats the one before it
+			}
+			c := &ConcatCase{Mode: mode, Refused: true}
+			c.Parts = [][]PStmt{a, {PStmt{K: "raw", Text: refusedStmts[i%len(refusedStmts)]}}, b}
+			c.Cell_ = fmt.Sprintf("refused-between m%d %s", mode, strings.TrimSpace(refusedStmts[i%len(refusedStmts)]))
+			cases = append(cases, c)
+		}
 		// the same relation when what precedes a sequence is LARGE: the sequence then stands at every alignment around the
 		// 64 KiB multiples of the image (position independence includes the position in the output file)
 		k := 0
@@ -221,7 +249,7 @@ func init() {
 		}
 		rep.Rule = "seeded label-free, position-independent statement sequences A,B(,C) from the clean pool (instructions of every supported form, DB/DW/DD, RESB), one mode per program; " +
 			"A, B, C and A;B;C are assembled separately by the real pipeline and out(A;B;C) must equal out(A)++out(B)++out(C) (pairs, triples, and a single statement inserted at every position of 20-statement programs); " +
-			"the same with a RESB of 64 KiB, 128 KiB, 192 KiB -6..+2 bytes as A, so that B stands at every alignment around those offsets of the image; non-trivial = all parts accepted without refusal; distinct = (shape, mode, kind of the first statement of B) cells"
+			"the same with a statement gosk refuses (12 kinds) inserted between two sequences, the second of which may start with the statement the first ended with; the same with a RESB of 64 KiB, 128 KiB, 192 KiB -6..+2 bytes as A, so that B stands at every alignment around those offsets of the image; non-trivial = all parts accepted without refusal; distinct = (shape, mode, kind of the first statement of B) cells"
 		outs := RunCases(env, cases)
 		for i := 0; i < 3 && i < len(cases); i++ {
 			c := cases[i].(*ConcatCase)
